@@ -93,8 +93,36 @@ def save_to_memory(qr, kind, kw):
     return buf.getvalue()
 
 
+def seq_terminal_obs(spec):
+    """spec: {version: ['seq', content, sequence kw, index], kind: 'seq_ans' | 'seq_compact', kw: {border}}: the part of the output of
+    QRCodeSequence.terminal(out=stream, ...) that belongs to symbol `index`, judged like the terminal output of that symbol"""
+    segno = common.use_repo()
+    _tag, content, seqkw, idx = spec['version']
+    seq = segno.make_sequence(content, **seqkw)
+    qr = seq[idx]
+    kw = spec['kw']
+    compact = spec['kind'] == 'seq_compact'
+    o = {'_spec': spec, 'family': 'raster', 'prop': 'C09', 'kind': 'compact' if compact else 'ans', 'matrix': [list(r) for r in qr.matrix],
+         'border': effective_border(qr, kw.get('border')), 'scale': 1, 'dpi': -1, 'outcome': {'status': 'ok'},
+         'dark': project.colour_arg('#000'), 'light': project.colour_arg('#fff'), '_scale_requested': 1}
+    try:
+        out = io.StringIO()
+        seq.terminal(out=out, border=kw.get('border'), compact=compact)
+        lines = out.getvalue().split('\n')
+        total = len(lines) - 1
+        per = total // len(seq) if len(seq) and total % len(seq) == 0 else total      # an output that does not split evenly is judged as a whole
+        chunk = '\n'.join(lines[idx * per:(idx + 1) * per] + [''])
+        o['doc'] = project.compact(chunk) if compact else project.ansi(chunk)
+    except Exception as e:  # noqa
+        o['outcome'] = symobs.outcome_of_exception(e)
+    o['_cost'] = (len(o['matrix']) + 2 * o['border']) ** 2
+    return o
+
+
 def raster_obs(spec):
-    """spec: {version, kind, kw, seed}; kind in png pbm pam ppm xbm xpm txt ans compact."""
+    """spec: {version, kind, kw, seed}; kind in png pbm pam ppm xbm xpm txt ans compact (seq_ans / seq_compact: see seq_terminal_obs)."""
+    if spec['kind'] in ('seq_ans', 'seq_compact'):
+        return seq_terminal_obs(spec)
     qr = symbol_for(spec['version'], spec['seed'])
     kind, kw = spec['kind'], {k: tuple(v) if isinstance(v, list) else v for k, v in spec['kw'].items()}     # replay files hold tuples as lists
     o = {'_spec': spec, 'family': 'raster', 'prop': 'C09', 'kind': kind, 'matrix': [list(r) for r in qr.matrix],
@@ -210,6 +238,12 @@ def gen_raster(tier, seed_):
                 continue
             add(kind, 'M2', {'scale': s, 'border': 2})
             add(kind, 1, {'scale': s})
+    # the terminal output of a sequence written to a stream: every symbol with the requested quiet zone, one after the other
+    for content, seqkw, n in (('HELLO WORLD ' * 3, {'version': 1}, 2), ('12345', {'version': 2}, 1), ('sequence of two symbols', {'symbol_count': 2}, 2)):
+        for b in (None, 0, 1, 3):
+            for kind in ('seq_ans', 'seq_compact'):
+                for i in range(n):
+                    add(kind, ['seq', content, seqkw, i], {} if b is None else {'border': b})
     big = [5, 10, 20, 40] if tier == 'quick' else list(range(4, 41))
     for v in big:
         add('png', v, {'scale': 1})
@@ -449,6 +483,12 @@ def gen_vector(tier, seed_):
     for opt in SVG_OPTS:
         for s in (1, 2.5):
             add('svg', 1, dict(opt, scale=s))
+    # no quiet zone together with a background colour (the background is the page, whether or not a quiet zone surrounds the symbol)
+    for v in ('M1', 1, 7):
+        for kind in ('svg', 'eps', 'pdf'):
+            add(kind, v, {'border': 0, 'light': 'yellow'})
+            add(kind, v, {'border': 0, 'light': '#fafbfc', 'dark': 'navy', 'scale': 2.5})
+            add(kind, v, {'border': 0, 'light': None})
     # EPS / PDF accept floats as R, G, B values (docstring of write_eps): each float component is an intensity 0.0 .. 1.0, also next to
     # int components in the same tuple
     for c in ((0.5, 0.0, 0.0), (0.5, 0, 0), (1.0, 1.0, 0), (0.5, 0.25, 1.0), (0.0, 0.0, 0.5), (0, 0.5, 255), (1.0, 0, 0), (0.2, 0.4, 0.6)):
@@ -632,6 +672,14 @@ def gen_typed(tier, seed_):
             add('typed', kind, v, {'quiet_zone': 'black', 'timing_light': 'black', 'timing_dark': 'white'})
             # the same colour given in different notations for different types
             add('typed', kind, v, {'dark': '#000', 'finder_dark': 'black', 'timing_dark': 'darkred', 'data_dark': (0, 0, 0), 'border': 1})
+            # no quiet zone (border 0) together with a light colour and / or a quiet-zone colour: the page is the light colour, the
+            # quiet-zone colour shows nowhere
+            for extra in ({'light': 'yellow'}, {'light': 'yellow', 'quiet_zone': 'red'}, {'quiet_zone': 'red'}, {'light': '#fafbfc', 'quiet_zone': '#ffee10', 'scale': 3},
+                          {'light': 'yellow', 'quiet_zone': 'yellow'}) + (({'light': None, 'quiet_zone': 'red'}, {'light': 'yellow', 'quiet_zone': None}) if kind != 'ppm' else ()):
+                if kind == 'svg' and extra.get('quiet_zone', extra.get('light')) == extra.get('light'):
+                    continue        # a two-colour SVG is the plain document with a background rectangle: C10's clauses (gen_vector)
+                add('typed', kind, v, dict(extra, border=0))
+                add('typed', kind, v, dict(extra, border=1))
             # one colour in its notations, per module type: #RGBA (translucent / opaque), #RRGGBBAA, tuple with integer and float alpha
             if kind != 'ppm':
                 add('typed', kind, v, {'finder_dark': '#f008', 'data_dark': '#ff000088', 'timing_dark': (255, 0, 0, 136), 'format_dark': '#f00f', 'border': 1})
